@@ -49,7 +49,7 @@ fn open_core(b: &Backend, key: Option<PartialKeypair>, open: bool, cache: CacheM
     open_core_ow(b, key, open, cache, false)
 }
 
-fn open_core_ow(b: &Backend, key: Option<PartialKeypair>, open: bool, cache: CacheMode, overwrite: bool) -> Result<Hypercore, String> {
+pub fn open_core_ow(b: &Backend, key: Option<PartialKeypair>, open: bool, cache: CacheMode, overwrite: bool) -> Result<Hypercore, String> {
     let r = exec::call(async {
         let storage = b.storage_with(overwrite).await?;
         let mut bd = HypercoreBuilder::new(storage);
